@@ -12,6 +12,7 @@ tvars == <<vars, l, rej>>
 MNote(n) == [k |-> n.k, t |-> n.t, safe |-> n.safe, unsafe |-> n.unsafe, canc |-> n.canc, proof |-> n.proof, depth |-> n.depth, pv |-> n.pv]
 LDl(i) == [j \in 1..Len(Tr[i].st.dl) |-> MNote(Tr[i].st.dl[j])]
 OutSeq == CHOOSE s \in [1..Cardinality(Outs) -> Outs] : \A a, b \in 1..Cardinality(Outs) : a < b => s[a] < s[b]
+NewOf(s, n) == SubSeq(s, n + 1, Len(s))
 BagOfSeq(s) == [x \in Range(s) |-> Cardinality({i \in 1..Len(s) : s[i] = x})]
 
 Same(i) == LET s == Tr[i].st IN
@@ -37,9 +38,11 @@ IsStutter(i) == Tr[i].skip # "" \/ Tr[i].act.a = "final"
 Match == /\ l < Len(Tr) /\ Tr[l+1].act.a # "init"
          /\ IF IsStutter(l+1) THEN UNCHANGED vars ELSE Step(Tr[l+1].act)
          /\ Same(l+1)
+         \* what this step delivered (the checker iterates a map: its notifications may come in any order, here and in the recorded prefix)
+         /\ Len(dl') = Len(LDl(l+1))
          /\ IF Tr[l+1].act.a = "Checker"
-            THEN BagOfSeq(dl') = BagOfSeq(LDl(l+1))
-            ELSE dl' = LDl(l+1)
+            THEN BagOfSeq(NewOf(dl', Len(dl))) = BagOfSeq(NewOf(LDl(l+1), Len(dl)))
+            ELSE NewOf(dl', Len(dl)) = NewOf(LDl(l+1), Len(dl))
          /\ l' = l + 1 /\ UNCHANGED rej
 
 TStart(i) == /\ mp' = [t \in Tx |-> NoMp] /\ idx' = [o \in Outs |-> <<>>] /\ un' = [t \in Tx |-> NoUn]
